@@ -271,10 +271,13 @@ def rule_R14_4(ctx):
     for f in prog.hand_fns():
         if f.is_closure or f.from_expansion:
             continue
-        pushes = [c for c in f.calls() if (c.res or "").endswith("ScopeStack::new_from_push")]
+        import anchors
+        pushers = {p.path for p in anchors.scope_pushers(prog)}
+        pushes = [c for c in f.calls() if not c.is_ptr and c.res in pushers]
         if not pushes:
             continue
-        binds = [c for c in f.calls() if not c.is_ptr and (c.res or "").startswith("eval::bind::")
+        bm = anchors.binder_module(prog)
+        binds = [c for c in f.calls() if not c.is_ptr and (c.res or "").startswith(bm + "::")
                  and f.in_any_loop(c.bb)]
         for c in binds:
             found += 1
